@@ -104,7 +104,7 @@ Proof.
   destruct (nth_error (ents (w_st w)) e) as [en|] eqn:Hn; [|apply nth_error_None in Hn; lia].
   cbn [rbind]. match goal with |- exists _, (if ?B then _ else _) = _ /\ _ => destruct B end.
   - destruct (get_latest_total (real_evl w) g w e false [sd] en I He Hn) as (w' & Eg). exists w'. split; [exact Eg|].
-    destruct (get_latest_pres (real_evl w) g w e false [sd] w' I He Eg) as (I1 & Hp & _ & _ & _ & Hlen).
+    destruct (get_latest_pres (real_evl w) g w e false [sd] w' I He Eg) as (I1 & Hp & _ & _ & _ & Hlen & _).
     split; [|exact Hlen]. unfold Inv. apply (InvP_ext (real_evl w)); [intros sd0; unfold real_evl; rewrite Hp; reflexivity|exact I1].
   - exists w. auto.
 Qed.
@@ -171,7 +171,7 @@ Proof.
     destruct x as [|[|x]]; [congruence|congruence|lia]. }
   destruct (fill_paths_total g ord w I Hord) as (w1 & Ef & Lf). rewrite Ef in H. cbn [rbind] in H.
   assert (Hord2: Forall (fun e => (2 <= e)%nat) ord) by (eapply Forall_impl; [|exact Hord]; intros x (A & _); exact A).
-  destruct (fill_paths_pres g ord w w1 I Hord2 Ef) as (I1 & T1 & P1).
+  destruct (fill_paths_pres g ord w w1 I Hord2 Ef) as (I1 & T1 & P1 & _).
   assert (Htick: tick w1 = (fst (tick w1), now (w_st w1) + 1000)) by reflexivity.
   rewrite Htick in H.
   pose proof (Inv_tick g w1 I1) as I2. set (w2 := fst (tick w1)) in *.
